@@ -7,10 +7,12 @@ EXTENDS Integers, FiniteSets, TLC, Json
 CONSTANTS Conns, Burst, R, Chunk, Horizon,
           PerConn,   \* mutant: one limiter per connection instead of per listener
           NoWait,    \* mutant: WaitN result ignored
-          MaxWait    \* mutant (if > 0): WaitN gives up - charging nothing - when the wait would exceed MaxWait ticks
+          MaxWait,   \* mutant (if > 0): WaitN gives up - charging nothing - when the wait would exceed MaxWait ticks
+          Batch      \* mutant (if > 0): a connection charges the limiter only once Batch bytes have piled up; what is
+                     \* still pending when the connection ends is never charged
 
-VARIABLES now, tokens, last, wake, moved, wStart, wMoved
-vars == <<now, tokens, last, wake, moved, wStart, wMoved>>
+VARIABLES now, tokens, last, wake, moved, wStart, wMoved, pend
+vars == <<now, tokens, last, wake, moved, wStart, wMoved, pend>>
 
 Bk(c) == IF PerConn THEN c ELSE "shared"
 Buckets == IF PerConn THEN Conns ELSE {"shared"}
@@ -18,29 +20,36 @@ Min(a, b) == IF a < b THEN a ELSE b
 CeilDiv(a, b) == (a + b - 1) \div b
 
 Init == /\ now = 0 /\ tokens = [b \in Buckets |-> Burst] /\ last = [b \in Buckets |-> 0]
-        /\ wake = [c \in Conns |-> 0] /\ moved = 0 /\ wStart = 0 /\ wMoved = 0
+        /\ wake = [c \in Conns |-> 0] /\ moved = 0 /\ wStart = 0 /\ wMoved = 0 /\ pend = [c \in Conns |-> 0]
 
 Tick == /\ now < Horizon /\ now' = now + 1
-        /\ UNCHANGED <<tokens, last, wake, moved, wStart, wMoved>>
+        /\ UNCHANGED <<tokens, last, wake, moved, wStart, wMoved, pend>>
 
 \* one I/O of n bytes by connection c, followed by limiter.WaitN(n)  (x/time/rate reservation)
 IO(c, n) ==
   /\ wake[c] <= now
   /\ LET b == Bk(c)
+         due == IF Batch > 0 THEN (IF pend[c] + n >= Batch THEN pend[c] + n ELSE 0) ELSE n     \* what is charged now
          avail == Min(Burst, tokens[b] + R * (now - last[b]))
-         left == avail - n
+         left == avail - due
          need == IF left >= 0 THEN 0 ELSE CeilDiv(0 - left, R)
          giveUp == MaxWait > 0 /\ need > MaxWait IN       \* x/time/rate: no reservation is made, the bytes go uncharged
-     /\ IF giveUp THEN UNCHANGED <<tokens, last>>
+     /\ pend' = [pend EXCEPT ![c] = IF Batch > 0 /\ due = 0 THEN @ + n ELSE 0]
+     /\ IF giveUp \/ due = 0 THEN UNCHANGED <<tokens, last>>
         ELSE tokens' = [tokens EXCEPT ![b] = left] /\ last' = [last EXCEPT ![b] = now]
-     /\ wake' = [wake EXCEPT ![c] = IF NoWait \/ giveUp THEN now ELSE now + need]
+     /\ wake' = [wake EXCEPT ![c] = IF NoWait \/ giveUp \/ due = 0 THEN now ELSE now + need]
   /\ moved' = moved + n
   /\ UNCHANGED <<now, wStart, wMoved>>
 
-\* an observer may start measuring at any instant
-StartWindow == /\ wStart' = now /\ wMoved' = moved /\ UNCHANGED <<now, tokens, last, wake, moved>>
+\* the connection ends and another one takes its place on the listener (short-lived connections): whatever it had not
+\* been charged for is forgotten
+Reopen(c) == /\ wake[c] <= now /\ pend[c] > 0 /\ pend' = [pend EXCEPT ![c] = 0]
+             /\ UNCHANGED <<now, tokens, last, wake, moved, wStart, wMoved>>
 
-Next == Tick \/ StartWindow \/ \E c \in Conns, n \in 1..Chunk : IO(c, n)
+\* an observer may start measuring at any instant
+StartWindow == /\ wStart' = now /\ wMoved' = moved /\ UNCHANGED <<now, tokens, last, wake, moved, pend>>
+
+Next == Tick \/ StartWindow \/ \E c \in Conns : Reopen(c) \/ \E n \in 1..Chunk : IO(c, n)
 Spec == Init /\ [][Next]_vars
 
 \* over any window the bytes moved stay within burst + R*elapsed, plus at most one
@@ -52,8 +61,10 @@ RateBound == moved - wMoved <= Burst + R * (now - wStart) + Cardinality(Conns) *
 Limits == {0, 4, 8}                     \* MiB/s
 \* a crowd: so many connections on a slow listener that the limiter's backlog is seconds deep
 Crowd == 64
-Cases == [read : Limits, write : Limits, conns : 1..3, dir : {"download", "upload"}, kind : {"plain", "tunnel"}]
-         \cup [read : {0, 1}, write : {0, 1}, conns : {Crowd}, dir : {"download", "upload"}, kind : {"plain", "tunnel"}]
+\* churn: every worker uses a fresh connection for each 48 KiB of its share (many short-lived connections)
+Cases == [read : Limits, write : Limits, conns : 1..3, dir : {"download", "upload"}, kind : {"plain", "tunnel"}, churn : {FALSE}]
+         \cup [read : {0, 1}, write : {0, 1}, conns : {Crowd}, dir : {"download", "upload"}, kind : {"plain", "tunnel"}, churn : {FALSE}]
+         \cup [read : {0, 4}, write : {0, 4}, conns : {4}, dir : {"download", "upload"}, kind : {"plain"}, churn : {TRUE}]
 LimitFor(c) == IF c.dir = "download" THEN c.read ELSE c.write
 Expect(c) == [limited |-> LimitFor(c) # 0, rate |-> LimitFor(c)]
 EmitCases == \A c \in Cases : PrintT(ToJson([c |-> c, exp |-> Expect(c)]))
